@@ -233,7 +233,7 @@ PROPS = {
                 "are pushed. Every envelope handed to Send on any node is scanned for the private payload bytes. Distinct = (participant lists, identities) signatures.",
         "invariants": ["C15.leak", "C15.store"],
         "assumptions": ["the handshake inside the real gRPC connection manager is not run, only the authenticator it calls; a failed authentication is modelled as an anonymous peer"],
-        "probes_expected": ["listed-participant-received-payload", "authentication-refused"],
+        "probes_expected": ["listed-participant-received-payload", "authentication-refused", "participant-without-key-agreement-key"],
         "quick": {"budget_s": 100, "chunk": 6, "chunk_timeout_s": 1200},
         "thorough": {"budget_s": 1200, "chunk": 6, "minimise_s": 200, "chunk_timeout_s": 2400},
     },
